@@ -20,6 +20,9 @@ class E2(Exception):
 
 
 class Obj(object):
+  key = 'k'          # class attributes: not part of the instance state that is compared
+  keys = ('k',)
+
   def __init__(self):
     self.a = 7
 
